@@ -48,7 +48,13 @@ enum Want {
 /// All restricted-growth strings of length n with at most `max_blocks` blocks: the set
 /// partitions of n addresses into slots.
 fn partitions(n: usize, max_blocks: usize) -> Vec<Vec<usize>> {
-    fn rec(n: usize, max_blocks: usize, cur: &mut Vec<usize>, used: usize, out: &mut Vec<Vec<usize>>) {
+    fn rec(
+        n: usize,
+        max_blocks: usize,
+        cur: &mut Vec<usize>,
+        used: usize,
+        out: &mut Vec<Vec<usize>>,
+    ) {
         if cur.len() == n {
             out.push(cur.clone());
             return;
@@ -71,7 +77,16 @@ fn pool_addr(i: u32) -> IpAddr {
     if i % 2 == 0 {
         IpAddr::V4(Ipv4Addr::new(10, 9, (i >> 9) as u8, (i >> 1) as u8))
     } else {
-        IpAddr::V6(Ipv6Addr::new(0x2001, 0xdb8, 9, 0, 0, 0, (i >> 17) as u16, (i >> 1) as u16))
+        IpAddr::V6(Ipv6Addr::new(
+            0x2001,
+            0xdb8,
+            9,
+            0,
+            0,
+            0,
+            (i >> 17) as u16,
+            (i >> 1) as u16,
+        ))
     }
 }
 
@@ -104,7 +119,12 @@ fn realise(
         // enough? greedily give the fullest slots to the neediest blocks
         let mut sizes: Vec<(usize, usize)> = by_slot.iter().map(|(s, v)| (v.len(), *s)).collect();
         sizes.sort_unstable_by(|a, b| b.cmp(a));
-        if sizes.len() >= nblocks && sorted_need.iter().zip(&sizes).all(|(n, (have, _))| have >= n) {
+        if sizes.len() >= nblocks
+            && sorted_need
+                .iter()
+                .zip(&sizes)
+                .all(|(n, (have, _))| have >= n)
+        {
             // assign: neediest block -> fullest slot
             let mut blocks: Vec<usize> = (0..nblocks).collect();
             blocks.sort_unstable_by(|a, b| need[*b].cmp(&need[*a]));
@@ -143,7 +163,10 @@ impl CacheCfg {
         format!(
             "cache;size={};pat={};cutoff={};unit={}",
             self.size,
-            self.pattern.iter().map(|b| b.to_string()).collect::<String>(),
+            self.pattern
+                .iter()
+                .map(|b| b.to_string())
+                .collect::<String>(),
             self.cutoff,
             self.unit_ns
         )
@@ -178,7 +201,9 @@ fn want_cache(size: usize, cutoff: u64, slots: &[Option<usize>], hist: &[(usize,
     if ago >= cutoff {
         return Want::MustAllow; // own previous request not within the cutoff
     }
-    let interloper = before[j + 1..].iter().any(|(x, _)| *x != a && slots[*x] == slots[a]);
+    let interloper = before[j + 1..]
+        .iter()
+        .any(|(x, _)| *x != a && slots[*x] == slots[a]);
     if interloper {
         Want::Unspecified
     } else {
@@ -202,7 +227,14 @@ struct Walk<'a> {
 }
 
 impl Walk<'_> {
-    fn step(&mut self, cache: &Cache, seq: &mut Vec<usize>, hist: &mut Vec<(usize, u64)>, s: usize, judge: bool) -> Option<Cache> {
+    fn step(
+        &mut self,
+        cache: &Cache,
+        seq: &mut Vec<usize>,
+        hist: &mut Vec<(usize, u64)>,
+        s: usize,
+        judge: bool,
+    ) -> Option<Cache> {
         let (a, d) = sym(s);
         let t = hist.last().map(|h| h.1).unwrap_or(0) + d;
         seq.push(s);
@@ -263,7 +295,8 @@ impl Walk<'_> {
                 );
             }
             if seq.len() <= 4 && hist[..hist.len() - 1].iter().any(|(x, _)| *x == a) {
-                self.hashes.push(common::hash_of(&("cache", self.cfg_index, &*seq)));
+                self.hashes
+                    .push(common::hash_of(&("cache", self.cfg_index, &*seq)));
             }
         }
         Some(next)
@@ -294,7 +327,11 @@ const TALLY_NAMES: [&str; 6] = [
 
 fn cache_cfgs(thorough: bool) -> Vec<CacheCfg> {
     let mut v = Vec::new();
-    let units: &[u64] = if thorough { &[1_000_000_000, 1] } else { &[1_000_000_000] };
+    let units: &[u64] = if thorough {
+        &[1_000_000_000, 1]
+    } else {
+        &[1_000_000_000]
+    };
     for size in 0..=3usize {
         for pattern in partitions(NADDR, size) {
             for cutoff in [0u64, 10] {
@@ -314,10 +351,21 @@ fn cache_cfgs(thorough: bool) -> Vec<CacheCfg> {
 
 /// Run one (cfg, 2-symbol prefix) subtree. `prefix == None`: only the root level nodes
 /// of length 1 (used when max_len < 2).
-fn run_cache_subtree(ctx: &Ctx, cfg: &CacheCfg, cfg_index: u64, p1: usize, p2: usize, max_len: usize, prefix_fill: &str) {
+fn run_cache_subtree(
+    ctx: &Ctx,
+    cfg: &CacheCfg,
+    cfg_index: u64,
+    p1: usize,
+    p2: usize,
+    max_len: usize,
+    prefix_fill: &str,
+) {
     let root = Cache::new(cfg.size);
     let Some(addrs) = realise(&cfg.pattern, |a| root.slot(a), (0..4096).map(pool_addr)) else {
-        ctx.cap_hit(&format!("machinery: could not realise slot pattern {:?} for size {}", cfg.pattern, cfg.size));
+        ctx.cap_hit(&format!(
+            "machinery: could not realise slot pattern {:?} for size {}",
+            cfg.pattern, cfg.size
+        ));
         return;
     };
     let slots: Vec<Option<usize>> = addrs.iter().map(|a| root.slot(a)).collect();
@@ -380,13 +428,20 @@ fn replay_cache(ctx: &Ctx, f: &BTreeMap<String, String>) -> String {
     let size: usize = f.get("size").and_then(|s| s.parse().ok()).unwrap_or(1);
     let pattern: Vec<usize> = f
         .get("pat")
-        .map(|p| p.chars().filter_map(|c| c.to_digit(10).map(|d| d as usize)).collect())
+        .map(|p| {
+            p.chars()
+                .filter_map(|c| c.to_digit(10).map(|d| d as usize))
+                .collect()
+        })
         .unwrap_or_else(|| vec![0; NADDR]);
     let cfg = CacheCfg {
         size,
         pattern,
         cutoff: f.get("cutoff").and_then(|s| s.parse().ok()).unwrap_or(10),
-        unit_ns: f.get("unit").and_then(|s| s.parse().ok()).unwrap_or(1_000_000_000),
+        unit_ns: f
+            .get("unit")
+            .and_then(|s| s.parse().ok())
+            .unwrap_or(1_000_000_000),
     };
     if cfg.pattern.len() != NADDR {
         return "bad pattern".into();
@@ -399,7 +454,13 @@ fn replay_cache(ctx: &Ctx, f: &BTreeMap<String, String>) -> String {
     let base = Instant::now();
     let mut hist: Vec<(usize, u64)> = Vec::new();
     let mut obs = Vec::new();
-    for item in f.get("seq").map(|s| s.as_str()).unwrap_or("").split(',').filter(|s| !s.is_empty()) {
+    for item in f
+        .get("seq")
+        .map(|s| s.as_str())
+        .unwrap_or("")
+        .split(',')
+        .filter(|s| !s.is_empty())
+    {
         let Some((a, d)) = item.split_once('+') else {
             return format!("bad item {item}");
         };
@@ -414,14 +475,24 @@ fn replay_cache(ctx: &Ctx, f: &BTreeMap<String, String>) -> String {
         );
         let want = want_cache(cfg.size, cfg.cutoff, &slots, &hist);
         match (want, got) {
-            (Want::MustLimit, true) => ctx.violation("C20:not-limited-within-cutoff", "replay", "replay"),
-            (Want::MustAllow, false) => ctx.violation("C20:limited-without-recent-own-request", "replay", "replay"),
+            (Want::MustLimit, true) => {
+                ctx.violation("C20:not-limited-within-cutoff", "replay", "replay")
+            }
+            (Want::MustAllow, false) => {
+                ctx.violation("C20:limited-without-recent-own-request", "replay", "replay")
+            }
             _ => {}
         }
-        obs.push(format!("{item}:{}(ref {want:?})", if got { "allowed" } else { "limited" }));
+        obs.push(format!(
+            "{item}:{}(ref {want:?})",
+            if got { "allowed" } else { "limited" }
+        ));
     }
     // slots are reported as a sharing pattern (the numeric slot depends on the hash seed)
-    let shape: Vec<usize> = slots.iter().map(|s| slots.iter().position(|x| x == s).unwrap()).collect();
+    let shape: Vec<usize> = slots
+        .iter()
+        .map(|s| slots.iter().position(|x| x == s).unwrap())
+        .collect();
     format!("sharing={shape:?} {}", obs.join(" "))
 }
 
@@ -430,7 +501,13 @@ fn replay_cache(ctx: &Ctx, f: &BTreeMap<String, String>) -> String {
 // ---------------------------------------------------------------------------------
 
 const CLIENTS: [&str; 5] = ["X1", "X2", "X3", "Y", "Z"];
-const SRV_DGRAMS: [&str; 5] = ["v4.plain.m3", "v4.nts.ok.m3", "v4.nts.badtag.m3", "v4.plain.m4", "garbage-ff48"];
+const SRV_DGRAMS: [&str; 5] = [
+    "v4.plain.m3",
+    "v4.nts.ok.m3",
+    "v4.nts.badtag.m3",
+    "v4.plain.m4",
+    "garbage-ff48",
+];
 
 #[derive(Clone)]
 struct SrvCfg {
@@ -442,11 +519,22 @@ impl SrvCfg {
     fn trace(&self) -> String {
         format!(
             "srv;da={};aa={};cs={};co={};pat={}",
-            if self.policy.deny_act == Act::Ignore { 'i' } else { 'd' },
-            if self.policy.allow_act == Act::Ignore { 'i' } else { 'd' },
+            if self.policy.deny_act == Act::Ignore {
+                'i'
+            } else {
+                'd'
+            },
+            if self.policy.allow_act == Act::Ignore {
+                'i'
+            } else {
+                'd'
+            },
             self.policy.cache_size,
             self.policy.cutoff.as_secs(),
-            self.pattern.iter().map(|b| b.to_string()).collect::<String>(),
+            self.pattern
+                .iter()
+                .map(|b| b.to_string())
+                .collect::<String>(),
         )
     }
 }
@@ -472,7 +560,11 @@ fn srv_policy(da: Act, aa: Act, cache_size: usize, cutoff_s: u64) -> Policy {
 
 fn srv_cfgs(thorough: bool) -> Vec<SrvCfg> {
     let mut v = Vec::new();
-    let sizes: &[usize] = if thorough { &[0, 1, 2, 3, 32] } else { &[0, 1, 2, 32] };
+    let sizes: &[usize] = if thorough {
+        &[0, 1, 2, 3, 32]
+    } else {
+        &[0, 1, 2, 32]
+    };
     for &size in sizes {
         for pattern in partitions(3, if size >= 3 { 3 } else { size }) {
             for cutoff in [0u64, 3600] {
@@ -492,12 +584,24 @@ fn srv_cfgs(thorough: bool) -> Vec<SrvCfg> {
 
 /// Pick X1..X3 (passing), Y (deny-listed) and Z (not on the allow list) for THIS server
 /// instance: X's realise the sharing pattern; Y and Z hash into X1's slot.
-fn srv_clients(cfg: &SrvCfg, server: &crate::server::Server<c15::MockClock>) -> Option<[IpAddr; 5]> {
+fn srv_clients(
+    cfg: &SrvCfg,
+    server: &crate::server::Server<c15::MockClock>,
+) -> Option<[IpAddr; 5]> {
     let xs_pool = (0u32..65536).map(|i| {
         if i % 2 == 0 {
             IpAddr::V4(Ipv4Addr::new(10, 1, (i >> 9) as u8, (i >> 1) as u8))
         } else {
-            IpAddr::V6(Ipv6Addr::new(0x2001, 0xdb8, 1, 2, 0, 0, (i >> 17) as u16, (i >> 1) as u16))
+            IpAddr::V6(Ipv6Addr::new(
+                0x2001,
+                0xdb8,
+                1,
+                2,
+                0,
+                0,
+                (i >> 17) as u16,
+                (i >> 1) as u16,
+            ))
         }
     });
     let xs = realise(&cfg.pattern, |a| server_slot(server, a), xs_pool)?;
@@ -519,11 +623,20 @@ struct SrvStep {
 }
 
 /// Run one sequence on a fresh server; returns per step observation + reference.
-fn run_srv_seq(cfg: &SrvCfg, keys: &Keys, dgrams: &[Dgram], seq: &[(usize, usize)]) -> Result<(Vec<SrvStep>, Vec<usize>), String> {
+fn run_srv_seq(
+    cfg: &SrvCfg,
+    keys: &Keys,
+    dgrams: &[Dgram],
+    seq: &[(usize, usize)],
+) -> Result<(Vec<SrvStep>, Vec<usize>), String> {
     let (mut server, _clock) = cfg.policy.server(keys);
-    let clients = srv_clients(cfg, &server).ok_or_else(|| "machinery: could not pick clients for the slot pattern".to_string())?;
+    let clients = srv_clients(cfg, &server)
+        .ok_or_else(|| "machinery: could not pick clients for the slot pattern".to_string())?;
     let slots: Vec<Option<usize>> = clients.iter().map(|a| server_slot(&server, a)).collect();
-    let shape: Vec<usize> = slots.iter().map(|s| slots.iter().position(|x| x == s).unwrap()).collect();
+    let shape: Vec<usize> = slots
+        .iter()
+        .map(|s| slots.iter().position(|x| x == s).unwrap())
+        .collect();
     let mut buf = vec![0u8; 1024];
     let mut out = Vec::new();
     // history of list-passing requests only: (client index)
@@ -545,7 +658,10 @@ fn run_srv_seq(cfg: &SrvCfg, keys: &Keys, dgrams: &[Dgram], seq: &[(usize, usize
                 match passed.iter().rposition(|x| x == c) {
                     None => Want::MustAllow,
                     Some(j) => {
-                        if passed[j + 1..].iter().any(|x| x != c && slots[*x] == slots[*c]) {
+                        if passed[j + 1..]
+                            .iter()
+                            .any(|x| x != c && slots[*x] == slots[*c])
+                        {
                             Want::Unspecified
                         } else {
                             Want::MustLimit
@@ -573,7 +689,13 @@ fn srv_seq_text(seq: &[(usize, usize)]) -> String {
         .join(",")
 }
 
-fn judge_srv(ctx: &Ctx, cfg: &SrvCfg, seq: &[(usize, usize)], steps: &[SrvStep], tally: &mut BTreeMap<String, u64>) {
+fn judge_srv(
+    ctx: &Ctx,
+    cfg: &SrvCfg,
+    seq: &[(usize, usize)],
+    steps: &[SrvStep],
+    tally: &mut BTreeMap<String, u64>,
+) {
     let trace = || format!("{};seq={}", cfg.trace(), srv_seq_text(seq));
     for (i, st) in steps.iter().enumerate() {
         let (c, d) = seq[i];
@@ -582,7 +704,12 @@ fn judge_srv(ctx: &Ctx, cfg: &SrvCfg, seq: &[(usize, usize)], steps: &[SrvStep],
             "srv.{}.{}",
             match st.want {
                 Want::MustLimit => "must-limit",
-                Want::MustAllow => if st.passes { "must-allow" } else { "not-listed" },
+                Want::MustAllow =>
+                    if st.passes {
+                        "must-allow"
+                    } else {
+                        "not-listed"
+                    },
                 Want::Unspecified => "unspecified",
             },
             if limited { "limited" } else { st.ans.tag() }
@@ -618,7 +745,13 @@ fn judge_srv(ctx: &Ctx, cfg: &SrvCfg, seq: &[(usize, usize)], steps: &[SrvStep],
                     // a passing, not rate-limited client with a valid request receives time
                     ctx.violation(
                         "C20:unlimited-client-no-time",
-                        format!("step {i}: {} is not rate limited, sent {} but got {} / {:?}", CLIENTS[c], SRV_DGRAMS[d], st.ans.tag(), st.regs),
+                        format!(
+                            "step {i}: {} is not rate limited, sent {} but got {} / {:?}",
+                            CLIENTS[c],
+                            SRV_DGRAMS[d],
+                            st.ans.tag(),
+                            st.regs
+                        ),
                         trace(),
                     );
                 }
@@ -632,7 +765,13 @@ fn part_b(ctx: &Ctx, keys: &Keys, max_len: usize) {
     let alpha = c15::alphabet(keys);
     let dgrams: Vec<Dgram> = SRV_DGRAMS
         .iter()
-        .map(|n| alpha.iter().find(|d| d.name == *n).expect("datagram name").clone())
+        .map(|n| {
+            alpha
+                .iter()
+                .find(|d| d.name == *n)
+                .expect("datagram name")
+                .clone()
+        })
         .collect();
     let cfgs = srv_cfgs(!ctx.quick());
     ctx.set("srv.configs", cfgs.len() as u64);
@@ -672,7 +811,10 @@ fn part_b(ctx: &Ctx, keys: &Keys, max_len: usize) {
         |loc, i| {
             let ci = (i / nseq) as usize;
             let word = common::word_of(i % nseq, nsym, max_len);
-            let seq: Vec<(usize, usize)> = word.iter().map(|s| (s / SRV_DGRAMS.len(), s % SRV_DGRAMS.len())).collect();
+            let seq: Vec<(usize, usize)> = word
+                .iter()
+                .map(|s| (s / SRV_DGRAMS.len(), s % SRV_DGRAMS.len()))
+                .collect();
             let cfg = &cfgs[ci];
             match run_srv_seq(cfg, keys, &dgrams, &seq) {
                 Ok((steps, _shape)) => {
@@ -689,7 +831,13 @@ fn part_b(ctx: &Ctx, keys: &Keys, max_len: usize) {
                             srv_seq_text(&seq),
                             steps
                                 .iter()
-                                .map(|s| if s.regs.iter().any(|r| r.2 == ServerReason::RateLimit) { "limited" } else { s.ans.tag() })
+                                .map(
+                                    |s| if s.regs.iter().any(|r| r.2 == ServerReason::RateLimit) {
+                                        "limited"
+                                    } else {
+                                        s.ans.tag()
+                                    }
+                                )
                                 .collect::<Vec<_>>()
                                 .join(",")
                         ));
@@ -699,7 +847,11 @@ fn part_b(ctx: &Ctx, keys: &Keys, max_len: usize) {
                     if e.starts_with("machinery") {
                         ctx.cap_hit(&e);
                     } else {
-                        ctx.violation("C20:server-panic", e, format!("{};seq={}", cfg.trace(), srv_seq_text(&seq)));
+                        ctx.violation(
+                            "C20:server-panic",
+                            e,
+                            format!("{};seq={}", cfg.trace(), srv_seq_text(&seq)),
+                        );
                     }
                 }
             }
@@ -709,7 +861,13 @@ fn part_b(ctx: &Ctx, keys: &Keys, max_len: usize) {
 
 fn replay_srv(ctx: &Ctx, f: &BTreeMap<String, String>) -> String {
     let keys = Keys::new();
-    let act = |k: &str| if f.get(k).map(|s| s.as_str()) == Some("d") { Act::Deny } else { Act::Ignore };
+    let act = |k: &str| {
+        if f.get(k).map(|s| s.as_str()) == Some("d") {
+            Act::Deny
+        } else {
+            Act::Ignore
+        }
+    };
     let cfg = SrvCfg {
         policy: srv_policy(
             act("da"),
@@ -719,18 +877,31 @@ fn replay_srv(ctx: &Ctx, f: &BTreeMap<String, String>) -> String {
         ),
         pattern: f
             .get("pat")
-            .map(|p| p.chars().filter_map(|c| c.to_digit(10).map(|d| d as usize)).collect())
+            .map(|p| {
+                p.chars()
+                    .filter_map(|c| c.to_digit(10).map(|d| d as usize))
+                    .collect()
+            })
             .unwrap_or_else(|| vec![0, 0, 0]),
     };
     if cfg.pattern.len() != 3 {
         return "bad pattern".into();
     }
     let mut seq = Vec::new();
-    for item in f.get("seq").map(|s| s.as_str()).unwrap_or("").split(',').filter(|s| !s.is_empty()) {
+    for item in f
+        .get("seq")
+        .map(|s| s.as_str())
+        .unwrap_or("")
+        .split(',')
+        .filter(|s| !s.is_empty())
+    {
         let Some((c, d)) = item.split_once(':') else {
             return format!("bad item {item}");
         };
-        let (Some(c), Some(d)) = (CLIENTS.iter().position(|x| *x == c), SRV_DGRAMS.iter().position(|x| *x == d)) else {
+        let (Some(c), Some(d)) = (
+            CLIENTS.iter().position(|x| *x == c),
+            SRV_DGRAMS.iter().position(|x| *x == d),
+        ) else {
             return format!("unknown item {item}");
         };
         seq.push((c, d));
@@ -738,7 +909,13 @@ fn replay_srv(ctx: &Ctx, f: &BTreeMap<String, String>) -> String {
     let alpha = c15::alphabet(&keys);
     let dgrams: Vec<Dgram> = SRV_DGRAMS
         .iter()
-        .map(|n| alpha.iter().find(|d| d.name == *n).expect("datagram name").clone())
+        .map(|n| {
+            alpha
+                .iter()
+                .find(|d| d.name == *n)
+                .expect("datagram name")
+                .clone()
+        })
         .collect();
     match run_srv_seq(&cfg, &keys, &dgrams, &seq) {
         Ok((steps, shape)) => {
@@ -749,7 +926,14 @@ fn replay_srv(ctx: &Ctx, f: &BTreeMap<String, String>) -> String {
                 steps
                     .iter()
                     .enumerate()
-                    .map(|(i, s)| format!("{}:{}->{}{:?}(ref {:?})", CLIENTS[seq[i].0], SRV_DGRAMS[seq[i].1], s.ans.tag(), s.regs, s.want))
+                    .map(|(i, s)| format!(
+                        "{}:{}->{}{:?}(ref {:?})",
+                        CLIENTS[seq[i].0],
+                        SRV_DGRAMS[seq[i].1],
+                        s.ans.tag(),
+                        s.regs,
+                        s.want
+                    ))
                     .collect::<Vec<_>>()
                     .join(" ")
             )
@@ -791,7 +975,9 @@ fn check() {
     ctx.assume("arrival instants are non-decreasing (std::time::Instant is monotonic)");
     ctx.assume("a rate-limited request is itself a request that passed the access lists (it refreshes the client's own time stamp)");
     ctx.assume("when another address used the slot in between, the statement allows both outcomes; those cases are counted, not judged");
-    ctx.assume("Server level: real time between two handle calls of one sequence is >= 0 and < 1 h");
+    ctx.assume(
+        "Server level: real time between two handle calls of one sequence is >= 0 and < 1 h",
+    );
     ctx.assume("addresses that do not pass the access lists do not 'use' a cache slot");
     let keys = Keys::new();
     part_a(&ctx, la);
